@@ -1,7 +1,7 @@
 """C18: the bundled gradient checker accepts correct rules and rejects wrong ones."""
 from harness import common as C
 
-FILES = ["Operators/Checker.v", "Operators/Gaussian.v", "Operators/Run18.v", "Props/C18.v"]
+FILES = ["Operators/Checker.v", "Operators/Gaussian.v", "Operators/Run18.v", "Operators/CheckerTie.v", "Props/C18.v"]
 RULE = ("(A) pairs of float64 numbers around both thresholds of scalar_close (absolute 1e-6, relative 1e-6, opposite "
         "numbers, equal numbers; a guard band of 1e-12 around the thresholds is skipped), given exactly as rationals: "
         "decision compared with the proved procedure; (B) check_grads run with recorded seeds on correct primitives "
@@ -50,7 +50,7 @@ def replay(rp):
     return 1
 
 
-TECHNIQUE = "Coq/Coquelicot/Interval: accept and reject regions of scalar_close, rejection probability under stated probability hypotheses, rational decision procedure proved equivalent; correspondence on float pairs + planted-defect runs of check_grads"
+TECHNIQUE = "Coq/Coquelicot/Interval: accept and reject regions of scalar_close, rejection probability under stated probability hypotheses, rational decision procedure proved equivalent to the real definition and to the expression translated from test_util.py on every run (thresholds included); correspondence on float pairs + planted-defect runs of check_grads"
 DESIGN_REF = "DESIGN.md 4.18"
 LEVEL_TEXT = ("Partial (stated): deterministic accept/reject regions and a >= 0.99 rejection probability for a scalar wrong-factor rule "
               "under hypotheses (H1),(H2); exact-real arithmetic. Arrays, complex, containers, order 2 and forward mode are exercised "
